@@ -1,5 +1,6 @@
 import TantivyModel.Driver.Proto
 import TantivyModel.Model.Store.Store
+import TantivyModel.Model.Store.Version
 /-!
 Line protocol of the C09 model (doc store). Compression is `none` in every whole-file request
 (the harness feeds lz4/zstd stores block-wise after decompressing with the real codec).
@@ -156,6 +157,14 @@ def handle : List String → String
       | some d => showDoc d
       | none => "err"
     | none => "bad-op"
+  | ["docdecv", v, h] =>
+    -- a document as `StoreReader::get` returns it from a store of format version `v`
+    match v.toNat?, bytesOfHex h with
+    | some v, some bs =>
+      match deserializeDocV v bs with
+      | some d => showDoc d
+      | none => "err"
+    | _, _ => "bad-op"
   | ["docenc", t] =>
     match parseDoc t with
     | some d => hexOfBytes (encStoredDoc d)
